@@ -37,9 +37,14 @@ RCeil(a) == IF a[1] % a[2] = 0 THEN a[1] \div a[2] ELSE (a[1] \div a[2]) + 1
 \* extended order (NaN excluded): works because  p1*q2 <= p2*q1  also orders <<-1,0>>, finite, <<1,0>>
 XLeq(a, b) == IF a[2] = 0 /\ b[2] = 0 THEN a[1] <= b[1] ELSE a[1] * b[2] <= b[1] * a[2]
 XLess(a, b) == a # b /\ XLeq(a, b)
-\* a < 10^-6 , a < 10^-7 for small numerators (tolerance tests on the 2^-26 grid)
-RLessE6(a) == a[1] * 1000000 < a[2]
-RLessE7(a) == a[1] * 10000000 < a[2]
+\* Comparisons with the SDK's tolerances 10^-6 / 10^-7, written so that TLC's 32-bit integers cannot
+\* overflow for any finite a = <<p,q>> with 0 < q < 2^31:  p >= 2148 already implies p*10^6 > q.
+RLessE6(a) == IF a[1] <= 0 THEN TRUE ELSE IF a[1] >= 2148 THEN FALSE ELSE a[1] * 1000000 < a[2]          \* a <  10^-6
+RLeqE7(a)  == IF a[1] <= 0 THEN TRUE ELSE IF a[1] >= 215  THEN FALSE ELSE a[1] * 10000000 <= a[2]        \* a <= 10^-7
+Unrep == <<0, -2>>  \* harness marker: a finite float that is not representable in the trace's number domain
+IsNum(x) == x[2] >= 0 /\ x # NaN                                  \* a proper extended rational (not NaN / Err / Unrep)
+RMin(a, b) == IF RLeq(a, b) THEN a ELSE b
+RMax(a, b) == IF RLeq(a, b) THEN b ELSE a
 RECURSIVE RSumSeq(_)
 RSumSeq(s) == IF s = <<>> THEN Zero ELSE RAdd(Head(s), RSumSeq(Tail(s)))
 =============================================================================
